@@ -85,8 +85,18 @@ func (rn *runner) checkIntent(p *Prog, impl string) *vl.OracleFail {
 	}
 	// erroneous program: must not be accepted; a fatal crash is only tolerated on the one known shape
 	if strings.HasPrefix(impl, "ok ") {
-		fails := func(q *Prog) bool { return strings.HasPrefix(rn.impl(q), "ok ") }
-		m := shrink(p, fails)
+		// keep programs the oracle itself still judges erroneous (dangling intent, duplicate name,
+		// identifier with no or several readings) and that are still accepted
+		fails := func(q *Prog) bool {
+			if _, valid := expectedDump(q); valid {
+				return false
+			}
+			return strings.HasPrefix(rn.impl(q), "ok ")
+		}
+		m := p
+		if !p.Fixed {
+			m = shrink(p, fails)
+		}
 		return &vl.OracleFail{Key: "accepted:" + progKey(m), What: "a program with an unresolvable reference (" + p.Shape + ") is accepted",
 			Input: map[string]interface{}{"program": progJSON(m), "idl": m.Render(), "kind": "accepted"}, Expected: "err:" + p.Expect, Observed: "ok"}
 	}
@@ -296,6 +306,9 @@ func run(repo, dir string, seed uint64, tier string) error {
 		nprog, nvar, maxFiles, maxChain = 10000, 2, 8, 12
 	}
 	rn.splitOps(r, 300)
+	for _, p := range fixedCases() {
+		rn.one(p, r, 1)
+	}
 	g := &gen{r: r, maxFiles: maxFiles, maxChain: maxChain}
 	for i := 0; i < nprog; i++ {
 		p := g.genProgram()
